@@ -46,7 +46,7 @@ ASSUMPTIONS = ["work = interpreter control-flow events (PY_START + JUMP + BRANCH
 
 # a manager WITHOUT a timeframe extends its list in place: there the candle manager and the candles
 # themselves are measured too (a timeframe manager re-collapses its list by construction, see ASSUMPTIONS)
-MEASURED_BASE = MEASURED + ("core/candle_manager.py", "core/candle.py")
+MEASURED_BASE = MEASURED + ("core/candle_manager.py", "core/candle.py", "core/candlestick_type.py", "candlesticks/")
 _METER = None
 
 
@@ -172,6 +172,7 @@ def plan(seed, subbatch):
                                       else None),
                        "utc_offset_min": sub_rng(seed, "aware").choice((None, None, None, 0, 60, -210)),
                        "fill": probe_gap,
+                       "ctype": "HA" if sub_rng(seed, "ctype").random() < 0.15 else None,    # conversion resumes, it does not rescan
                        # two candles per measured append: the first of them is calculated at a NON-latest index
                        "probe_pairs": sub_rng(seed, "probe-pairs").random() < 0.3,
                        "probe_bare": sub_rng(seed, "probe-form").random() < 0.3,
@@ -189,12 +190,16 @@ def _build(cfg):
             spec = dict(spec, common=dict(spec["common"], lifespan_s=life))
         if cfg.get("fill") and spec["common"].get("timeframe"):
             spec = dict(spec, common=dict(spec["common"], timeframe_fill=True))
+        if cfg.get("ctype"):
+            spec = dict(spec, common=dict(spec["common"], candlestick_type=cfg["ctype"]))
         ind = build(spec, [])
         return ind, [ind]
     inds = [build(m) for m in cfg["members"]]
     kw = {"candles_lifespan": timedelta(seconds=life)} if life else {}
     if cfg.get("fill"):
         kw["timeframe_fill"] = True
+    if cfg.get("ctype"):
+        kw["candlestick_type"] = cfg["ctype"]
     return Hexital("sim", [], inds, **kw), inds
 
 
